@@ -1,0 +1,9 @@
+//go:build verif
+
+package fsm
+
+// Verification hook (build tag `verif` only; add-only).
+
+// VerifSetHeight sets the in-memory height of the state machine so that a harness which commits
+// store versions directly (without producing blocks) can query historical views.
+func (s *StateMachine) VerifSetHeight(h uint64) { s.height = h }
